@@ -13,8 +13,10 @@ Every call is executed on the real Client (FakeSock transport) and judged three 
                   _out_messages (mid, state, qos, dup), _inflight_messages, _in_messages are what they
                   were before; afterwards a short normal conversation behaves as on a fresh client
 """
+import glob
 import itertools
-import struct
+import json
+import os
 
 import paho.mqtt.client as mqtt
 from paho.mqtt.subscribeoptions import SubscribeOptions
@@ -971,8 +973,24 @@ def unsubscribe_forms(ctx, out, j):
 
 
 # --------------------------------------------------------------------------- entry points
+CORPUS = os.path.join(os.path.dirname(os.path.dirname(os.path.abspath(__file__))), "corpus", "C19")
+
+
+def run_corpus(out, j):
+    """stored witnesses first: the fixed finding F-C19a and a few hand-picked cases must hold"""
+    for path in sorted(glob.glob(os.path.join(CORPUS, "*.json"))):
+        payload = json.load(open(path))
+        ok, detail = replay(payload)
+        out.cases += 1
+        out.stat("corpus")
+        if not ok:
+            j.violation(payload["case"], f"corpus witness {os.path.basename(path)} fails again: {json.dumps(detail, default=str)[:300]}",
+                        "corpus:" + os.path.basename(path)[:-5])
+
+
 def run(ctx, out):
     j = Judge(out)
+    run_corpus(out, j)
     n = exhaustive_strings(ctx, out, j, 7)
     out.exhaustive = True
     out.notes.append(f"exhaustive: all {n} strings over {{a,+,#,/,$}} up to length 7, as filter and as topic, 3 versions x connected/disconnected")
@@ -997,7 +1015,7 @@ def run(ctx, out):
     out.sample({"group": "six_forms", "forms": [f[0] for f in six_forms()]})
 
     run_subscribe_cases(ctx, out, j, sub_domain(ctx), "subscribe_small_scope", loaded=True, conv_every=3000)
-    run_subscribe_cases(ctx, out, j, random_sub_args(ctx, ctx.n(3000, 60000)), "subscribe_random", loaded=True, conv_every=2000)
+    run_subscribe_cases(ctx, out, j, random_sub_args(ctx, ctx.n(3000, 150000)), "subscribe_random", loaded=True, conv_every=2000)
     publish_matrix(ctx, out, j)
     payload_length_boundary(ctx, out, j)
     boundary_and_random(ctx, out, j)
